@@ -139,7 +139,11 @@ void describe_msg(Case& c, Rng& r) {
   const model::Params* p = model::params((int)c.i("param", 1));
   unsigned d = (unsigned)r.below(100);
   int64_t n;
-  if (d < 4)
+  if (d < 1) {
+    // lengths that do not fit 16 bits (a length folded into a hash through a narrow type deviates only here)
+    static const std::vector<int> big = {65535, 65536, 65537, 65599, 70000, 131071, 131072, 196608};
+    n = r.pick(big);
+  } else if (d < 4)
     n = 0; // the empty message
   else if (d < 25)
     n = (int64_t)r.below(401);
